@@ -25,7 +25,7 @@ COMPONENTS = {"real": ["ECAgent.Core.Environment add_agent / remove_agent / get_
               "stub": ["agents and component classes are harness-defined"]}
 PROBES = ["dup_same_object", "dup_other_object", "unknown_remove", "unknown_strict_lookup", "oob_x_lo", "oob_x_hi",
           "oob_y_lo", "oob_y_hi", "oob_z_lo", "oob_z_hi", "oob_far", "reject_on_empty_environment", "remove_from_middle",
-          "readd_after_remove", "plain_env", "spatial_env", "model_lifecycle_op", "caller_scrambles_listing", "oob_fractional_in_grid"]
+          "readd_after_remove", "plain_env", "spatial_env", "model_lifecycle_op", "caller_scrambles_listing", "oob_fractional_in_grid", "environment_without_model"]
 TECHNIQUE = "deterministic simulation: every rejection injected at states reached by seeded add/remove histories, full observable snapshot compared before/after, insertion-ordered map reference"
 LEVEL_TEXT = ("Seeded search over add/remove histories with colliding ids; after every operation length, iteration, listing and "
               "lookup must agree with an insertion-ordered reference; each injected rejection must raise the documented class "
@@ -54,6 +54,7 @@ KT = [K0, K1, K2]
 def generate(rng, tier):
     world = gen_world(rng, kinds=("plain", "plain", "space", "space", "discrete", "grid", "line"), subunit=0.2)
     world["attached"] = rng.random() < 0.8
+    orphan = world["kind"] == "plain" and rng.random() < 0.2
     ids = [f"i{j}" for j in range(rng.randint(1, 5))]
     pool = [{"id": rng.choice(ids), "comps": sorted(rng.sample(range(3), rng.randint(0, 3)))} for _ in range(rng.randint(2, 16 if tier == "thorough" else 10))]
     ops = []
@@ -77,6 +78,11 @@ def generate(rng, tier):
             ops.append({"op": "scramble", "how": rng.choice(["reverse", "clear", "pop", "shuffle", "pick", "iter"])})
         else:
             ops.append({"op": "lifecycle", "what": rng.choice(["step", "complete"])})
+    if orphan:
+        world = {"kind": "plain", "orphan": True}
+        for p_ in pool:
+            p_["comps"] = []
+        ops = [o for o in ops if o["op"] != "lifecycle"]
     return {"world": world, "pool": pool, "ops": ops}
 
 
@@ -84,6 +90,10 @@ def execute(sc, ctx):
     m = Model(seed=20260927)
     ref = RefWorld(sc["world"])
     env = make_world(m, sc["world"])
+    if sc["world"].get("orphan"):
+        from ECAgent.Core import Environment
+        env = Environment(None)          # an environment without any model: only component-less agents can live in it
+        ctx.probe("environment_without_model")
     spatial = ref.spatial
     ctx.probe("spatial_env" if spatial else "plain_env")
     pool = sc["pool"]
@@ -250,9 +260,9 @@ def execute(sc, ctx):
                     lst.clear()
                 elif lst:
                     lst.pop(0)
-            elif how == "shuffle":
+            elif how == "shuffle" and env.model is not None:      # the random helpers need the model's generator
                 ctx.expect_ok("shuffle", env.shuffle)
-            elif how == "pick":
+            elif how == "pick" and env.model is not None:
                 ctx.expect_ok("get_random_agent", env.get_random_agent)
             else:
                 for _ in env:
